@@ -8,6 +8,14 @@ import Sigc.Lemmas.Basic
 to be preserved by every function of the mutual block; `preserved` proves, by one mutual induction
 on fuel, that then every function preserves it.  `Stable I` is the unary special case stated with the
 primitive steps of the emission epilogue.
+
+`StableKCore` / `StableCore` are the same schemas without the `forceDel` field (the harness teardown's
+unconditional destruction of signal objects): they are what the interpreter proper (`runTop`) needs, and
+are the right schema for invariants that the teardown deliberately breaks (e.g. "every functor-owned
+signal object is still named": the teardown destroys the named objects without asking the owners).
+`collect` is a field of the schema; it is derived from the three branches of `collectStep`
+(`invalidateTrackable`, `disconnectCell`, `dropHandle`) by `collect_preserved` /
+`PrimsA.collect` (`Sigc.Lemmas.InvPrims`); `dropHandle` is definitionally `forceDelG`.
 -/
 namespace Sigc.Inv
 open Sigc.Model
@@ -40,7 +48,7 @@ theorem emitImpl_succ (f : Nat) (P : Prog) (s : St) (fl : Flavour) (i arg : Nat)
         let first := match im.cells with
           | [] => s.next
           | c :: _ => c.id
-        match (if fl.isAcc then runStrat f P (emitPro s i im) i first s.next arg strat
+        match (if fl.isAcc then runStrat f P (emitPro s i im) i first s.next arg (strat.forFlavour fl)
                else emitLoop f P (emitPro s i im) i first s.next arg 0) with
         | none => none
         | some (s2, o, v) => some (emitEpi s2 i s.next, o, v) := by
@@ -128,6 +136,21 @@ theorem collect_preserved {I : St → Prop} (hstep : ∀ s s', I s → collectSt
     (s : St) (h : I s) : I (collect s) :=
   collectN_preserved hstep _ s h
 
+/-- the primitive preservation facts for a family of predicates `I k`, as far as the interpreter proper
+    (everything but the harness teardown) is concerned; the emission prologue may change the index (`k'`),
+    the epilogue must bring it back -/
+structure StableKCore {κ : Type} (I : κ → St → Prop) : Prop where
+  log : ∀ k s e, I k s → I k (s.log e)
+  fail : ∀ k s m, I k s → I k (s.fail m)
+  depth : ∀ k (s : St) d, I k s → I k { s with depth := d }
+  steps : ∀ k (s : St) n, I k s → I k { s with steps := n }
+  call : ∀ k (s : St) i (v : SlotVar), I k s → aget s.S i = some v →
+    ∃ k', I k' (callPro s i v) ∧ ∀ s2, I k' s2 → I k (callEpi s2 i)
+  simple : ∀ k s op s' r, I k s → stepSimple s op = some (s', r) → I k s'
+  collect : ∀ k s, I k s → I k (collect s)
+  emit : ∀ k s i im, I k s → aget s.impls i = some im →
+    ∃ k', I k' (emitPro s i im) ∧ ∀ s2, I k' s2 → I k (emitEpi s2 i s.next)
+
 /-- the primitive preservation facts for a family of predicates `I k`; the emission prologue may
     change the index (`k'`), the epilogue must bring it back -/
 structure StableK {κ : Type} (I : κ → St → Prop) : Prop where
@@ -142,6 +165,9 @@ structure StableK {κ : Type} (I : κ → St → Prop) : Prop where
   emit : ∀ k s i im, I k s → aget s.impls i = some im →
     ∃ k', I k' (emitPro s i im) ∧ ∀ s2, I k' s2 → I k (emitEpi s2 i s.next)
   forceDel : ∀ k s g, I k s → I k (forceDelG s g)
+
+theorem StableK.core {κ : Type} {I : κ → St → Prop} (h : StableK I) : StableKCore I :=
+  ⟨h.log, h.fail, h.depth, h.steps, h.call, h.simple, h.collect, h.emit⟩
 
 section
 variable {κ : Type} {I : κ → St → Prop}
@@ -159,7 +185,7 @@ def PresAll (I : κ → St → Prop) (f : Nat) : Prop :=
   (∀ k P s i first m arg strat r, I k s → runStrat f P s i first m arg strat = some r → I k r.1) ∧
   (∀ k P s op r, I k s → execOp f P s op = some r → I k r.1)
 
-theorem invokeFun_step (hS : StableK I) {f : Nat} (ih : PresAll I f) :
+theorem invokeFun_step (hS : StableKCore I) {f : Nat} (ih : PresAll I f) :
     ∀ k P s fn arg r, I k s → invokeFun (f+1) P s fn arg = some r → I k r.1 := by
   obtain ⟨ihInvoke, ihBody, ihLine, ihEmit, ihLoop, ihDeref, ihAcc, ihRev, ihWalk, ihStrat, ihOp⟩ := ih
   intro k P s fn arg r hI h
@@ -196,7 +222,7 @@ theorem invokeFun_step (hS : StableK I) {f : Nat} (ih : PresAll I f) :
         cases h
         exact hS.depth _ _ _ (ihBody _ _ _ _ _ (hS.depth _ _ _ (hS.log _ _ _ hI)) heq)
 
-theorem runBody_step (_hS : StableK I) {f : Nat} (ih : PresAll I f) :
+theorem runBody_step (_hS : StableKCore I) {f : Nat} (ih : PresAll I f) :
     ∀ k P s b r, I k s → runBody (f+1) P s b = some r → I k r.1 := by
   obtain ⟨ihInvoke, ihBody, ihLine, ihEmit, ihLoop, ihDeref, ihAcc, ihRev, ihWalk, ihStrat, ihOp⟩ := ih
   intro k P s b r hI h
@@ -209,7 +235,7 @@ theorem runBody_step (_hS : StableK I) {f : Nat} (ih : PresAll I f) :
     · rename_i heq; cases h; exact ihLine _ _ _ _ _ hI heq
     · rename_i heq; exact ihBody _ _ _ _ _ (ihLine _ _ _ _ _ hI heq) h
 
-theorem execLine_step (hS : StableK I) {f : Nat} (ih : PresAll I f) :
+theorem execLine_step (hS : StableKCore I) {f : Nat} (ih : PresAll I f) :
     ∀ k P s l r, I k s → execLine (f+1) P s l = some r → I k r.1 := by
   obtain ⟨ihInvoke, ihBody, ihLine, ihEmit, ihLoop, ihDeref, ihAcc, ihRev, ihWalk, ihStrat, ihOp⟩ := ih
   intro k P s l r hI h
@@ -219,7 +245,7 @@ theorem execLine_step (hS : StableK I) {f : Nat} (ih : PresAll I f) :
   · rename_i heq; cases h; exact hS.collect _ _ (hS.log _ _ _ (ihOp _ _ _ _ _ (hS.steps _ _ _ hI) heq))
   · rename_i heq; cases h; exact hS.collect _ _ (hS.log _ _ _ (ihOp _ _ _ _ _ (hS.steps _ _ _ hI) heq))
 
-theorem emitImpl_step (hS : StableK I) {f : Nat} (ih : PresAll I f) :
+theorem emitImpl_step (hS : StableKCore I) {f : Nat} (ih : PresAll I f) :
     ∀ k P s fl impl arg strat r, I k s → emitImpl (f+1) P s fl impl arg strat = some r → I k r.1 := by
   obtain ⟨ihInvoke, ihBody, ihLine, ihEmit, ihLoop, ihDeref, ihAcc, ihRev, ihWalk, ihStrat, ihOp⟩ := ih
   intro k P s fl impl arg strat r hI h
@@ -243,7 +269,7 @@ theorem emitImpl_step (hS : StableK I) {f : Nat} (ih : PresAll I f) :
           · exact ihStrat _ _ _ _ _ _ _ _ _ hpro heq
           · exact ihLoop _ _ _ _ _ _ _ _ _ hpro heq
 
-theorem emitLoop_step (hS : StableK I) {f : Nat} (ih : PresAll I f) :
+theorem emitLoop_step (hS : StableKCore I) {f : Nat} (ih : PresAll I f) :
     ∀ k P s i cur m arg v r, I k s → emitLoop (f+1) P s i cur m arg v = some r → I k r.1 := by
   obtain ⟨ihInvoke, ihBody, ihLine, ihEmit, ihLoop, ihDeref, ihAcc, ihRev, ihWalk, ihStrat, ihOp⟩ := ih
   intro k P s i cur m arg v r hI h
@@ -278,7 +304,7 @@ theorem emitLoop_step (hS : StableK I) {f : Nat} (ih : PresAll I f) :
     · cases h; exact hS.fail _ _ _ h1
     · exact ihLoop _ _ _ _ _ _ _ _ _ h1 h
 
-theorem deref_step (hS : StableK I) {f : Nat} (ih : PresAll I f) :
+theorem deref_step (hS : StableKCore I) {f : Nat} (ih : PresAll I f) :
     ∀ k P s i it arg r, I k s → deref (f+1) P s i it arg = some r → I k r.1 := by
   obtain ⟨ihInvoke, ihBody, ihLine, ihEmit, ihLoop, ihDeref, ihAcc, ihRev, ihWalk, ihStrat, ihOp⟩ := ih
   intro k P s i it arg r hI h
@@ -296,7 +322,7 @@ theorem deref_step (hS : StableK I) {f : Nat} (ih : PresAll I f) :
     · rename_i heq; cases h; exact ihInvoke _ _ _ _ _ _ hI heq
   · cases h; exact hI
 
-theorem accLoop_step (hS : StableK I) {f : Nat} (ih : PresAll I f) :
+theorem accLoop_step (hS : StableKCore I) {f : Nat} (ih : PresAll I f) :
     ∀ k P s i it m arg mode kk v r, I k s → accLoop (f+1) P s i it m arg mode kk v = some r → I k r.1 := by
   obtain ⟨ihInvoke, ihBody, ihLine, ihEmit, ihLoop, ihDeref, ihAcc, ihRev, ihWalk, ihStrat, ihOp⟩ := ih
   intro k P s i it m arg mode kk v r hI h
@@ -333,7 +359,7 @@ theorem accLoop_step (hS : StableK I) {f : Nat} (ih : PresAll I f) :
       · rename_i heq2; exact hadv _ _ _ _ (ihDeref _ _ _ _ _ _ _ h1 heq2) h
     · exact hadv _ _ _ _ h1 h
 
-theorem revLoop_step (hS : StableK I) {f : Nat} (ih : PresAll I f) :
+theorem revLoop_step (hS : StableKCore I) {f : Nat} (ih : PresAll I f) :
     ∀ k P s i it first arg v r, I k s → revLoop (f+1) P s i it first arg v = some r → I k r.1 := by
   obtain ⟨ihInvoke, ihBody, ihLine, ihEmit, ihLoop, ihDeref, ihAcc, ihRev, ihWalk, ihStrat, ihOp⟩ := ih
   intro k P s i it first arg v r hI h
@@ -350,7 +376,7 @@ theorem revLoop_step (hS : StableK I) {f : Nat} (ih : PresAll I f) :
   · rename_i heq; cases h; exact ihDeref _ _ _ _ _ _ _ hI heq
   · rename_i heq; exact ihRev _ _ _ _ _ _ _ _ _ (ihDeref _ _ _ _ _ _ _ hI heq) h
 
-theorem walkLoop_step (hS : StableK I) {f : Nat} (ih : PresAll I f) :
+theorem walkLoop_step (hS : StableKCore I) {f : Nat} (ih : PresAll I f) :
     ∀ k P s i it first m arg cs v r, I k s → walkLoop (f+1) P s i it first m arg cs v = some r → I k r.1 := by
   obtain ⟨ihInvoke, ihBody, ihLine, ihEmit, ihLoop, ihDeref, ihAcc, ihRev, ihWalk, ihStrat, ihOp⟩ := ih
   intro k P s i it first m arg cs v r hI h
@@ -390,7 +416,7 @@ theorem walkLoop_step (hS : StableK I) {f : Nat} (ih : PresAll I f) :
       · exact ihWalk _ _ _ _ _ _ _ _ _ _ _ hI h
     · exact ihWalk _ _ _ _ _ _ _ _ _ _ _ hI h
 
-theorem runStrat_step (_hS : StableK I) {f : Nat} (ih : PresAll I f) :
+theorem runStrat_step (_hS : StableKCore I) {f : Nat} (ih : PresAll I f) :
     ∀ k P s i first m arg strat r, I k s → runStrat (f+1) P s i first m arg strat = some r → I k r.1 := by
   obtain ⟨ihInvoke, ihBody, ihLine, ihEmit, ihLoop, ihDeref, ihAcc, ihRev, ihWalk, ihStrat, ihOp⟩ := ih
   intro k P s i first m arg strat r hI h
@@ -403,7 +429,7 @@ theorem runStrat_step (_hS : StableK I) {f : Nat} (ih : PresAll I f) :
   · exact ihAcc _ _ _ _ _ _ _ _ _ _ _ hI h
   · exact ihWalk _ _ _ _ _ _ _ _ _ _ _ hI h
 
-theorem execOp_step (hS : StableK I) {f : Nat} (ih : PresAll I f) :
+theorem execOp_step (hS : StableKCore I) {f : Nat} (ih : PresAll I f) :
     ∀ k P s op r, I k s → execOp (f+1) P s op = some r → I k r.1 := by
   obtain ⟨ihInvoke, ihBody, ihLine, ihEmit, ihLoop, ihDeref, ihAcc, ihRev, ihWalk, ihStrat, ihOp⟩ := ih
   intro k P s op r hI h
@@ -467,7 +493,7 @@ theorem presAll_zero : PresAll I 0 := by
 
 /-- **the schema**: a stable family is preserved by every function of the mutual block, for every
     fuel, whenever the function returns -/
-theorem preserved (hS : StableK I) : ∀ f, PresAll I f := by
+theorem preservedCore (hS : StableKCore I) : ∀ f, PresAll I f := by
   intro f
   induction f with
   | zero => exact presAll_zero
@@ -476,23 +502,38 @@ theorem preserved (hS : StableK I) : ∀ f, PresAll I f := by
       emitLoop_step hS ih, deref_step hS ih, accLoop_step hS ih, revLoop_step hS ih,
       walkLoop_step hS ih, runStrat_step hS ih, execOp_step hS ih⟩
 
+theorem preserved (hS : StableK I) : ∀ f, PresAll I f := preservedCore hS.core
+
+theorem execLine_preservedCore (hS : StableKCore I) {f k P s l r} (hI : I k s) (h : execLine f P s l = some r) :
+    I k r.1 := (preservedCore hS f).2.2.1 _ _ _ _ _ hI h
+
+theorem execOp_preservedCore (hS : StableKCore I) {f k P s op r} (hI : I k s) (h : execOp f P s op = some r) :
+    I k r.1 := (preservedCore hS f).2.2.2.2.2.2.2.2.2.2 _ _ _ _ _ hI h
+
+theorem emitImpl_preservedCore (hS : StableKCore I) {f k P s fl impl arg strat r} (hI : I k s)
+    (h : emitImpl f P s fl impl arg strat = some r) : I k r.1 :=
+  (preservedCore hS f).2.2.2.1 _ _ _ _ _ _ _ _ hI h
+
+theorem invokeFun_preservedCore (hS : StableKCore I) {f k P s fn arg r} (hI : I k s)
+    (h : invokeFun f P s fn arg = some r) : I k r.1 :=
+  (preservedCore hS f).1 _ _ _ _ _ _ hI h
 
 theorem execLine_preserved (hS : StableK I) {f k P s l r} (hI : I k s) (h : execLine f P s l = some r) :
-    I k r.1 := (preserved hS f).2.2.1 _ _ _ _ _ hI h
+    I k r.1 := execLine_preservedCore hS.core hI h
 
 theorem execOp_preserved (hS : StableK I) {f k P s op r} (hI : I k s) (h : execOp f P s op = some r) :
-    I k r.1 := (preserved hS f).2.2.2.2.2.2.2.2.2.2 _ _ _ _ _ hI h
+    I k r.1 := execOp_preservedCore hS.core hI h
 
 theorem emitImpl_preserved (hS : StableK I) {f k P s fl impl arg strat r} (hI : I k s)
     (h : emitImpl f P s fl impl arg strat = some r) : I k r.1 :=
-  (preserved hS f).2.2.2.1 _ _ _ _ _ _ _ _ hI h
+  emitImpl_preservedCore hS.core hI h
 
 theorem invokeFun_preserved (hS : StableK I) {f k P s fn arg r} (hI : I k s)
     (h : invokeFun f P s fn arg = some r) : I k r.1 :=
-  (preserved hS f).1 _ _ _ _ _ _ hI h
+  invokeFun_preservedCore hS.core hI h
 
 /-- lifted to the top-level runner -/
-theorem runTop_preserved (hS : StableK I) (f : Nat) (k : κ) (P : Prog) :
+theorem runTop_preservedCore (hS : StableKCore I) (f : Nat) (k : κ) (P : Prog) :
     ∀ (ls : List Line) (s s' : St), I k s → runTop f P s ls = some s' → I k s' := by
   intro ls
   induction ls with
@@ -503,7 +544,11 @@ theorem runTop_preserved (hS : StableK I) (f : Nat) (k : κ) (P : Prog) :
     split at h
     · cases h
     · rename_i heq
-      exact ih _ _ (execLine_preserved hS hI heq) h
+      exact ih _ _ (execLine_preservedCore hS hI heq) h
+
+theorem runTop_preserved (hS : StableK I) (f : Nat) (k : κ) (P : Prog) :
+    ∀ (ls : List Line) (s s' : St), I k s → runTop f P s ls = some s' → I k s' :=
+  runTop_preservedCore hS.core f k P
 
 theorem tdSeq_preserved (hS : StableK I) (f : Nat) (k : κ) (P : Prog) :
     ∀ (ops : List Op) (s s' : St), I k s → tdSeq f P (some s) ops = some s' → I k s' := by
@@ -691,5 +736,113 @@ theorem Stable.emitImpl {I : St → Prop} (h : Stable I) {f P s fl impl arg stra
 theorem Stable.invokeFun {I : St → Prop} (h : Stable I) {f P s fn arg r}
     (hs : I s) (hr : Model.invokeFun f P s fn arg = some r) : I r.1 :=
   invokeFun_preserved h.toK (k := ()) hs hr
+
+/-! ## the unary schema without the harness teardown
+
+For invariants that hold in every state of every run of the interpreter (`runTop`) but that the harness
+teardown breaks on purpose (it destroys every signal object, also the functor-owned ones). -/
+
+/-- `StableRel` without `forceDel` -/
+structure StableRelCore (J I : St → Prop) : Prop where
+  log : ∀ s e, J s → I s → I (s.log e)
+  fail : ∀ s m, J s → I s → I (s.fail m)
+  depth : ∀ (s : St) d, J s → I s → I { s with depth := d }
+  steps : ∀ (s : St) n, J s → I s → I { s with steps := n }
+  incall : ∀ (s : St) i (v : SlotVar) n, J s → I s → aget s.S i = some v →
+    I { s with S := aset s.S i { v with incall := n } }
+  simple : ∀ s op s' r, J s → I s → stepSimple s op = some (s', r) → I s'
+  collect : ∀ s, J s → I s → I (collect s)
+  pro : ∀ s i im, J s → I s → aget s.impls i = some im → I (emitPro s i im)
+  erase : ∀ s i m, J s → I s → I (eraseCell s i m)
+  unref : ∀ s i, J s → I s → I (unrefExec s i)
+  drop : ∀ s i, J s → I s → I (dropHolder s i)
+  gc : ∀ s i, J s → I s → I (gcImpl s i)
+
+abbrev StableCore (I : St → Prop) : Prop := StableRelCore (fun _ => True) I
+
+theorem StableRel.core {J I : St → Prop} (h : StableRel J I) : StableRelCore J I :=
+  ⟨h.log, h.fail, h.depth, h.steps, h.incall, h.simple, h.collect, h.pro, h.erase, h.unref, h.drop, h.gc⟩
+
+theorem StableCore.weaken {J I : St → Prop} (h : StableCore I) : StableRelCore J I where
+  log s e _ hI := h.log s e trivial hI
+  fail s m _ hI := h.fail s m trivial hI
+  depth s d _ hI := h.depth s d trivial hI
+  steps s n _ hI := h.steps s n trivial hI
+  incall s i v n _ hI hv := h.incall s i v n trivial hI hv
+  simple s op s' r _ hI hs := h.simple s op s' r trivial hI hs
+  collect s _ hI := h.collect s trivial hI
+  pro s i im _ hI hi := h.pro s i im trivial hI hi
+  erase s i m _ hI := h.erase s i m trivial hI
+  unref s i _ hI := h.unref s i trivial hI
+  drop s i _ hI := h.drop s i trivial hI
+  gc s i _ hI := h.gc s i trivial hI
+
+theorem StableRelCore.and {J I : St → Prop} (hJ : StableCore J) (hI : StableRelCore J I) :
+    StableCore (fun s => J s ∧ I s) where
+  log s e _ h := ⟨hJ.log s e trivial h.1, hI.log s e h.1 h.2⟩
+  fail s m _ h := ⟨hJ.fail s m trivial h.1, hI.fail s m h.1 h.2⟩
+  depth s d _ h := ⟨hJ.depth s d trivial h.1, hI.depth s d h.1 h.2⟩
+  steps s n _ h := ⟨hJ.steps s n trivial h.1, hI.steps s n h.1 h.2⟩
+  incall s i v n _ h hv := ⟨hJ.incall s i v n trivial h.1 hv, hI.incall s i v n h.1 h.2 hv⟩
+  simple s op s' r _ h hs := ⟨hJ.simple s op s' r trivial h.1 hs, hI.simple s op s' r h.1 h.2 hs⟩
+  collect s _ h := ⟨hJ.collect s trivial h.1, hI.collect s h.1 h.2⟩
+  pro s i im _ h hi := ⟨hJ.pro s i im trivial h.1 hi, hI.pro s i im h.1 h.2 hi⟩
+  erase s i m _ h := ⟨hJ.erase s i m trivial h.1, hI.erase s i m h.1 h.2⟩
+  unref s i _ h := ⟨hJ.unref s i trivial h.1, hI.unref s i h.1 h.2⟩
+  drop s i _ h := ⟨hJ.drop s i trivial h.1, hI.drop s i h.1 h.2⟩
+  gc s i _ h := ⟨hJ.gc s i trivial h.1, hI.gc s i h.1 h.2⟩
+
+theorem StableCore.emitEpi {I : St → Prop} (h : StableCore I) (s : St) (i m : Nat) (hI : I s) :
+    I (emitEpi s i m) := by
+  unfold Inv.emitEpi
+  split
+  · exact h.fail _ _ trivial hI
+  · apply h.collect _ trivial
+    apply h.gc _ _ trivial
+    apply h.drop _ _ trivial
+    apply h.unref _ _ trivial
+    split
+    · exact h.erase _ _ _ trivial hI
+    · exact h.fail _ _ trivial hI
+
+theorem StableCore.toK {I : St → Prop} (h : StableCore I) : StableKCore (fun (_ : Unit) => I) where
+  log _ s e hI := h.log s e trivial hI
+  fail _ s m hI := h.fail s m trivial hI
+  depth _ s d hI := h.depth s d trivial hI
+  steps _ s n hI := h.steps s n trivial hI
+  call _ s i v hI hv := ⟨(), h.incall s i v _ trivial hI hv, fun s2 h2 => by
+    unfold callEpi
+    split
+    · rename_i hv2; exact h.incall s2 i _ _ trivial h2 hv2
+    · exact h.fail _ _ trivial h2⟩
+  simple _ s op s' r hI hs := h.simple s op s' r trivial hI hs
+  collect _ s hI := h.collect s trivial hI
+  emit _ s i im hI hi := ⟨(), h.pro s i im trivial hI hi, fun s2 h2 => h.emitEpi s2 i s.next h2⟩
+
+/-- every terminating run of every program ends in a state satisfying a predicate that holds initially
+    and is stable under the interpreter -/
+theorem StableCore.runTop {I : St → Prop} (h : StableCore I) (h0 : I {}) (f : Nat) (P : Prog) (s : St)
+    (hr : runTop f P {} P.top = some s) : I s :=
+  runTop_preservedCore h.toK f () P _ _ _ h0 hr
+
+theorem StableCore.runTop_from {I : St → Prop} (h : StableCore I) (f : Nat) (P : Prog) (ls : List Line)
+    (s s' : St) (hs : I s) (hr : Model.runTop f P s ls = some s') : I s' :=
+  runTop_preservedCore h.toK f () P _ _ _ hs hr
+
+theorem StableCore.execOp {I : St → Prop} (h : StableCore I) {f P s op r}
+    (hs : I s) (hr : Model.execOp f P s op = some r) : I r.1 :=
+  execOp_preservedCore h.toK (k := ()) hs hr
+
+theorem StableCore.execLine {I : St → Prop} (h : StableCore I) {f P s l r}
+    (hs : I s) (hr : Model.execLine f P s l = some r) : I r.1 :=
+  execLine_preservedCore h.toK (k := ()) hs hr
+
+theorem StableCore.emitImpl {I : St → Prop} (h : StableCore I) {f P s fl impl arg strat r}
+    (hs : I s) (hr : Model.emitImpl f P s fl impl arg strat = some r) : I r.1 :=
+  emitImpl_preservedCore h.toK (k := ()) hs hr
+
+theorem StableCore.invokeFun {I : St → Prop} (h : StableCore I) {f P s fn arg r}
+    (hs : I s) (hr : Model.invokeFun f P s fn arg = some r) : I r.1 :=
+  invokeFun_preservedCore h.toK (k := ()) hs hr
 
 end Sigc.Inv
